@@ -59,6 +59,16 @@ def build(tier, rnd):
     add(['rsa-sha2-256', 'ssh-ed25519', 'ssh-rsa', 'ssh-rsa-cert-v01@openssh.com'],
         {'rsa-sha2-256': (3072, '', 0), 'ssh-rsa': (3072, '', 0), 'ssh-rsa-cert-v01@openssh.com': (3072, 'ssh-rsa', 2048)}, 'combined')
     add(['ecdsa-sha2-nistp256', 'ssh-rsa'], {'ssh-rsa': (1024, '', 0)}, 'combined')
+    # advertised but never presented: the server closes the probe connection instead of sending the key.  Nothing was measured
+    # for that type, so nothing may be reported for it (no size, no CA, no fingerprint); the other types are unaffected.
+    for key, hk, held in ((['rsa-sha2-512', 'rsa-sha2-256', 'ssh-ed25519'], {}, RSA_FAM),
+                          (['ssh-ed25519', 'rsa-sha2-256'], {'rsa-sha2-256': (2048, '', 0)}, ['ssh-ed25519']),
+                          (['ssh-ed25519', 'ssh-rsa', 'ecdsa-sha2-nistp256'], {'ssh-rsa': (3072, '', 0)}, ['ecdsa-sha2-nistp256']),
+                          (['ssh-rsa-cert-v01@openssh.com', 'ssh-ed25519', 'rsa-sha2-512'], {'rsa-sha2-512': (4096, '', 0)}, ['ssh-rsa-cert-v01@openssh.com']),
+                          (['ssh-ed25519-cert-v01@openssh.com', 'ssh-ed25519'], {}, ['ssh-ed25519-cert-v01@openssh.com', 'ssh-ed25519']),
+                          (['ssh-rsa', 'ssh-ed448'], {}, RSA_FAM + ['ssh-ed448'])):
+        add(key, hk, 'withheld')
+        cases[-1]['withheld'] = list(held)
     return cases
 
 
